@@ -70,6 +70,7 @@ func mutexLock(fr *frame, args []value) value {
 	i.syncPoint("mutex lock")
 	i.blockUntil(func() bool { return (*st).(int32) == 0 }, "mutex lock")
 	*st = int32(1)
+	i.hbAcquire(i.curTask, st)
 	return nil
 }
 
@@ -80,6 +81,7 @@ func mutexUnlock(fr *frame, args []value) value {
 		panic(i.runtimeError("fatal error: sync: unlock of unlocked mutex"))
 	}
 	*st = int32(0)
+	i.hbRelease(i.curTask, st)
 	i.syncPoint("mutex unlock")
 	return nil
 }
@@ -103,6 +105,7 @@ func (i *interpreter) newTimer(d int64, fn value) (*value, *vtimer) {
 	ch := &vchan{cap: 1, id: i.nextChanID()}
 	tm := &vtimer{id: i.timerSeq, ch: ch, armed: true, deadline: i.clock + d, fn: fn, seq: i.timerSeq}
 	ch.timer = tm
+	i.hbArmTimer(tm)
 	tt := i.prog.ImportedPackage("time").Type("Timer").Type()
 	cell := zero(tt)
 	st := structOf(tt)
@@ -151,18 +154,22 @@ func (i *interpreter) fireNextTimer() bool {
 		if i.sched == nil {
 			panic(i.unsupported("AfterFunc timer without scheduler"))
 		}
-		i.sched.spawnFn(best.fn)
+		i.sched.spawnFn(best.fn, best.vc)
 		return true
 	}
 	if len(best.ch.buf) == 0 {
 		best.ch.buf = append(best.ch.buf, i.newTimeValue(i.clock))
+		i.hbTimerTick(best)
 	}
 	return true
 }
 
-func (s *scheduler) spawnFn(fn value) {
+func (s *scheduler) spawnFn(fn value, vc vclock) {
 	t := &task{id: len(s.tasks), wake: make(chan int, 1)}
 	s.tasks = append(s.tasks, t)
+	if s.i.race != nil {
+		s.i.hbFork(vc, t)
+	}
 	s.wg.Add(1)
 	i := s.i
 	go func() {
@@ -335,6 +342,7 @@ func init() {
 			return false
 		}
 		*st = int32(1)
+		fr.i.hbAcquire(fr.i.curTask, st)
 		return true
 	}
 	// RWMutex: writer flag in w.state, reader count in readerCount.v
@@ -346,6 +354,8 @@ func init() {
 		i.syncPoint("rwmutex lock")
 		i.blockUntil(func() bool { return (*w).(int32) == 0 && (*rc).(int32) == 0 }, "rwmutex lock")
 		*w = int32(1)
+		i.hbAcquire(i.curTask, w)
+		i.hbAcquire(i.curTask, rc)
 		return nil
 	}
 	m["(*sync.RWMutex).Unlock"] = func(fr *frame, args []value) value {
@@ -355,6 +365,7 @@ func init() {
 			panic(i.runtimeError("fatal error: sync: Unlock of unlocked RWMutex"))
 		}
 		*w = int32(0)
+		i.hbRelease(i.curTask, w)
 		i.syncPoint("rwmutex unlock")
 		return nil
 	}
@@ -366,6 +377,7 @@ func init() {
 		i.syncPoint("rwmutex rlock")
 		i.blockUntil(func() bool { return (*w).(int32) == 0 }, "rwmutex rlock")
 		*rc = (*rc).(int32) + 1
+		i.hbAcquire(i.curTask, w)
 		return nil
 	}
 	m["(*sync.RWMutex).RUnlock"] = func(fr *frame, args []value) value {
@@ -375,6 +387,7 @@ func init() {
 			panic(i.runtimeError("fatal error: sync: RUnlock of unlocked RWMutex"))
 		}
 		*rc = (*rc).(int32) - 1
+		i.hbRelease(i.curTask, rc)
 		i.syncPoint("rwmutex runlock")
 		return nil
 	}
@@ -387,6 +400,9 @@ func init() {
 			panic(i.runtimeError("sync: negative WaitGroup counter"))
 		}
 		*c = uint64(n)
+		if i.concInt(args[1]) < 0 {
+			i.hbRelease(i.curTask, c)
+		}
 		i.syncPoint("waitgroup add")
 		return nil
 	}
@@ -395,11 +411,13 @@ func init() {
 		c := i.fieldCell(args[0].(*value), recvType(fr), "state", "v")
 		i.syncPoint("waitgroup wait")
 		i.blockUntil(func() bool { return (*c).(uint64) == 0 }, "waitgroup wait")
+		i.hbAcquire(i.curTask, c)
 		return nil
 	}
 	// sync.Map: association list kept in the `dirty` field
 	smap := func(fr *frame, p *value) *omap {
 		c := fr.i.fieldCell(p, recvType(fr), "dirty")
+		fr.i.hbAcqRel(fr.i.curTask, c)
 		mm, _ := (*c).(*omap)
 		if mm == nil {
 			mm = makeMap(types.NewInterfaceType(nil, nil))
@@ -462,6 +480,7 @@ func init() {
 	// atomic.Value: the stored interface is kept in field v
 	m["(*sync/atomic.Value).Load"] = func(fr *frame, args []value) value {
 		c := fr.i.fieldCell(args[0].(*value), recvType(fr), "v")
+		fr.i.hbAcqRel(fr.i.curTask, c)
 		return *c
 	}
 	m["(*sync/atomic.Value).Store"] = func(fr *frame, args []value) value {
@@ -469,11 +488,13 @@ func init() {
 			panic(fr.i.runtimeError("sync/atomic: store of nil value into Value"))
 		}
 		c := fr.i.fieldCell(args[0].(*value), recvType(fr), "v")
+		fr.i.hbAcqRel(fr.i.curTask, c)
 		*c = args[1]
 		return nil
 	}
 	m["(*sync/atomic.Value).Swap"] = func(fr *frame, args []value) value {
 		c := fr.i.fieldCell(args[0].(*value), recvType(fr), "v")
+		fr.i.hbAcqRel(fr.i.curTask, c)
 		old := *c
 		*c = args[1]
 		return old
@@ -481,6 +502,7 @@ func init() {
 	m["(*sync/atomic.Value).CompareAndSwap"] = func(fr *frame, args []value) value {
 		i := fr.i
 		c := i.fieldCell(args[0].(*value), recvType(fr), "v")
+		i.hbAcqRel(i.curTask, c)
 		old := args[1].(iface)
 		cur := (*c).(iface)
 		eq := false
@@ -526,6 +548,7 @@ func init() {
 		// Go 1.23 timer channels: Stop discards an undelivered tick and then reports true
 		if len(tm.ch.buf) > 0 {
 			tm.ch.buf = nil
+			tm.ch.recvx = tm.ch.sendx
 			was = true
 		}
 		return was
@@ -540,9 +563,11 @@ func init() {
 		was := tm.armed
 		if len(tm.ch.buf) > 0 {
 			tm.ch.buf = nil
+			tm.ch.recvx = tm.ch.sendx
 			was = true
 		}
 		tm.armed = true
+		i.hbArmTimer(tm)
 		tm.deadline = i.clock + durationArg(i, args[1])
 		i.timerSeq++
 		tm.seq = i.timerSeq
